@@ -14,6 +14,7 @@ CONSTANTS N,          \* number of types
           Kinds,      \* field kinds used
           VftTypes,   \* indices of the types that may declare a vftable block
           FnKinds,    \* impl-function mention kinds
+          FnOwners,   \* indices of the types that may have an impl function
           TwoModules, \* split the types over two modules
           Ptrs
 
@@ -47,6 +48,7 @@ ShapeOk(i, s) ==
   /\ (s.kind = "none" => s.tgt = Names[1])
   /\ (s.fk = "none" => s.ft = Names[1])
   /\ (s.vft => i \in VftTypes)
+  /\ (s.fk # "none" => i \in FnOwners)
   /\ (s.kind = "vptr" => s.tgt # Undefined)
   /\ (s.fk \in {"vparam", "vret"} => s.ft # Undefined)
 
@@ -216,6 +218,10 @@ ReplayRecord ==
    mirror |-> [unres |-> Unresolved(reg), out |-> out]]
 
 Replay == Terminal => PrintT(<<"REPLAY", ToJson(ReplayRecord)>>)
+
+(* with the VIEW below the state graph is collapsed over schedules: TLC still takes every *)
+(* pick in every pass (so PViol is evaluated on every distinct terminal state) but prints  *)
+(* one witness schedule per distinct terminal state                                        *)
 
 View == <<input, phase, added, mods, reg, start, todo, err, out>>
 
